@@ -53,7 +53,10 @@ def build_schema(desc: dict) -> dict:
                                       "content": {"application/json": {"schema": {"type": "object", "properties": {"id": {"type": "string"}}}}},
                                       "links": {"get": {"operationId": "getItem", "parameters": {"id": "$response.body#/id"}}}}},
             }},
-            "/items/{id}": {"get": {"operationId": "getItem", "parameters": params, **sec,
+            # DELETE first: it declares only the path parameter, GET on the same path declares all the overridable ones
+            "/items/{id}": {"delete": {"operationId": "deleteItem", "parameters": [params[0]], **sec,
+                                       "responses": {"200": {"description": "ok"}, "401": {"description": "no"}}},
+                            "get": {"operationId": "getItem", "parameters": params, **sec,
                                     "responses": {"200": {"description": "ok"}, "401": {"description": "no"}}}},
             "/plain": {"get": {"operationId": "plain", **sec, "responses": {"200": {"description": "ok"}, "401": {"description": "no"}}}},
         },
@@ -65,7 +68,7 @@ def applies(carrier: str, op: int, declared: str) -> bool:
     if carrier in ("hdr", "basic", "prov", "key"):
         return True
     if carrier == "ovp":
-        return op == 2
+        return op in (2, 4)
     return op == 2 and declared != "none"
 
 
@@ -104,7 +107,7 @@ def run_one(desc: dict) -> dict:
         user["prov"] = "Basic " + base64.b64encode(b"provuser:provpass").decode()
 
     def behaviour(r):
-        op = 1 if r.path == "/items" else 3 if r.path == "/plain" else 2
+        op = 1 if r.path == "/items" else 3 if r.path == "/plain" else (4 if r.method == "DELETE" else 2)
         hdrs = {k.lower(): v for k, v in r.headers}
         query = urllib.parse.parse_qs(r.query, keep_blank_values=True)
         cookies = {}
@@ -112,7 +115,7 @@ def run_one(desc: dict) -> dict:
             if "=" in part:
                 k, _, v = part.strip().partition("=")
                 cookies[k] = v
-        seg = urllib.parse.unquote(r.path.split("/")[2]) if op == 2 and len(r.path.split("/")) > 2 else ""
+        seg = urllib.parse.unquote(r.path.split("/")[2]) if op in (2, 4) and len(r.path.split("/")) > 2 else ""
         seen = {
             "hdr": hdrs.get("x-canary", ""), "basic": hdrs.get("authorization", ""),
             "ovq": (query.get("q") or [""])[-1] if len(query.get("q") or []) <= 1 else "MULTI:" + ",".join(query["q"]),
@@ -124,7 +127,7 @@ def run_one(desc: dict) -> dict:
             lines.append({"e": "R", "op": op, "ph": phase["n"], "method": r.method,
                           "vals": [seen[c] for c in CARRIERS], "linked": False, "case": hdrs.get("x-schemathesis-testcaseid", ""),
                           "probe": False, "parent": ""})
-        if "key" in carriers and op in (2, 3) and seen["key"] != user["key"]:
+        if "key" in carriers and op in (2, 3, 4) and seen["key"] != user["key"]:
             return json_response(401, {})
         if op == 1:
             with lock:
@@ -218,7 +221,7 @@ def run_one(desc: dict) -> dict:
     hdr = {
         "carriers": [c in carriers for c in CARRIERS],
         "user": [user[c] for c in CARRIERS], "issued_by_key": sorted(issued_by_key.values()) or [0],
-        "applies": [[applies(c, op, desc["declared"]) for c in CARRIERS] for op in (1, 2, 3)],
+        "applies": [[applies(c, op, desc["declared"]) for c in CARRIERS] for op in (1, 2, 3, 4)],
         "declared": desc["declared"], "errors": errors[:5], "issued": issued["n"], "wall_ms": int((time.time() - t0) * 1000),
     }
     return {"hdr": hdr, "lines": lines, "desc": desc}
